@@ -7,10 +7,17 @@ package main
 // its messages into the pool, Advance). Every op line is one schedule event; the answer line carries
 //
 //	a=<abstract actions of this event, in order>   vocabulary of Z.RaftAbs.Action (lean/ZanVerif/Raft/ExecCore.lean)
-//	s=<observable state of every real node>        id:term:role:commit:off:entries  (or id= when unchanged)
+//	s=<observable state of every real node>        id:term:role:commit:off:entries:v<vote>:d<dterm>.<dvote>.<dcommit>
+//	                                               (or id= when unchanged); vote = the volatile r.Vote (0 = none);
+//	                                               d... = the HardState that REALLY is in the storage object after the
+//	                                               event (read back with Storage.InitialState; dcommit as abstract index)
 //
 // and the Lean driver (lean/Driver/Raft.lean, certificate mode) folds the proven-sound `apply` over the
-// actions and compares the abstract nodes with the reported real ones.
+// actions and compares the abstract nodes with the reported real ones - including whom the node has voted
+// for in its current term (abstract: itself if it campaigned in that term, else the candidate of its recorded
+// `grant`, else nobody) and the durable (term, vote, commit) (abstract: dterm, the flushed campaign / grant of
+// that term, dcommit). `flush j` is emitted for every persisted-and-released Ready whatever it contains; that
+// the Ready really carried what had to be persisted (the vote!) is what the comparison of d... checks.
 //
 // Bootstrap / index mapping. Every node starts (RestartNode) from a MemoryStorage that holds what a
 // StartNode-bootstrapped group holds after applying and compacting its bootstrap entries: a snapshot
@@ -51,12 +58,17 @@ package main
 //	tick n | hup n | prop n | xfer n m      tick / Campaign / Propose(next counter value) / TransferLeadership(n's leader -> m)
 //	del k | dup k | drop k                  deliver pool[k] and remove it / deliver and keep it (duplicate) / lose it;
 //	                                        `del` on an empty pool is `tick k`
+//	delp f t y | dupp f t y                 deliver (and remove / keep) the NEWEST pool message from node f to node t of
+//	                                        kind y (0 any, 1 MsgVote, 2 MsgVoteResp, 3 MsgPreVote, 4 MsgPreVoteResp, 5 MsgApp,
+//	                                        6 MsgAppResp, 7 MsgHeartbeat, 8 MsgHeartbeatResp); nothing happens if there is none
 //	crash n                                 drop the Node, RestartNode on the same storage object (Applied = 0)
 //	snap n back                             CreateSnapshot + Compact of n's storage at applied-back (stable entries only)
 //	delx k                                  like del, but a MsgSnap is lost at the receiver instead of delivered
 //	snaprep n m 0|1                         ReportSnapshot(m, Finish|Failure) on node n (what the transport tells the sender)
 //	iso n | isol n | heal                   cut node n (isol: the current leader) off: traffic from/to it is lost; heal all
 //	tickall                                 one tick on every node (id order) - time passes everywhere, leases expire
+//	mark m n                                no event: the generator announces a directed vote schedule of kind m around voter n
+//	                                        (coverage accounting only: which kinds reach the grant without a term change)
 //	... cr=0|a|e<k>|h|s  (suffix of tick/hup/prop/xfer/del/dup) crash inside the Ready of this event:
 //	    0  nothing persisted, nothing sent                                   -> created actions, crash j
 //	    a  everything persisted, nothing sent                                -> created actions, flush j, crash j
@@ -114,8 +126,9 @@ func genRaft(rng *rand.Rand, tier string, emit func(string)) {
 		mc := []uint64{0, 30, 1 << 20}[rng.Intn(3)]
 		mi := []int{1, 2, 8, 8}[rng.Intn(4)]
 		et := 4 + rng.Intn(5)
+		pv, cq := rng.Intn(2), rng.Intn(2)
 		emit(fmt.Sprintf("cfg v=%d l=%d pv=%d cq=%d et=%d ht=1 ms=%d mc=%d mi=%d sv=%s seed=%d",
-			v, l, rng.Intn(2), rng.Intn(2), et, ms, mc, mi, svMode, rng.Intn(1<<30)))
+			v, l, pv, cq, et, ms, mc, mi, svMode, rng.Intn(1<<30)))
 		total := maxEv/2 + rng.Intn(maxEv-maxEv/2+1)
 		N := v + l
 		left := total
@@ -171,12 +184,216 @@ func genRaft(rng *rand.Rand, tier string, emit func(string)) {
 				}
 			}
 		}
-		out("hup %d", rng.Intn(N))
+		// voteRace: directed schedules around "one vote per node and term" (C01). A voter A is brought into a term T
+		// WITHOUT voting in it (so that its later grant changes nothing but the vote: no term bump in that Ready),
+		// optionally made a pre-candidate, then the MsgVote of two candidates of term T reach it one after the other,
+		// optionally with a crash / restart in between (the second one must be refused - from memory or from storage).
+		// The generator knows no state: node roles are picked blindly, messages are picked by (from, to, kind) with
+		// `delp`, which does nothing when there is no such message - every line stays executable after shrinking.
+		const (
+			kVote = 1 + iota
+			kVoteResp
+			kPreVote
+			kPreVoteResp
+			kApp
+			kAppResp
+			kHb
+		)
+		voteRace := func() {
+			perm := rng.Perm(v)
+			a, c1, c2 := perm[0], perm[1%v], perm[2%v]
+			var others []int // voters that are neither the voter under test nor a candidate
+			if v > 3 {
+				others = perm[3:]
+			}
+			maybe := func(p int) bool { return rng.Intn(100) < p }
+			dp := func(f, t, y int, sfx string) {
+				if maybe(4) { // a step is lost / something else happens first
+					if maybe(50) {
+						del(50)
+					}
+					return
+				}
+				out("delp %d %d %d%s", f, t, y, sfx)
+			}
+			without := func(xs ...int) []int {
+				var r []int
+			next:
+				for _, p := range perm {
+					for _, x := range xs {
+						if p == x {
+							continue next
+						}
+					}
+					r = append(r, p)
+				}
+				return r
+			}
+			// c asks the voters ps for their (pre-)vote, each answer is delivered
+			ask := func(c, y int, ps []int) {
+				for _, p := range ps {
+					dp(c, p, y, "")
+					dp(p, c, y+1, "")
+				}
+			}
+			timeout := func(n int) { // the node starts an election: Campaign, or its election timer fires
+				if maybe(70) {
+					out("hup %d", n)
+				} else {
+					for i := 0; i < 2*et; i++ {
+						out("tick %d", n)
+					}
+				}
+			}
+			// which way A gets into the term without voting; the ways depend on pre-vote / check-quorum (a way that does
+			// not fit the configuration is still tried now and then: it must be harmless)
+			var mode int
+			switch x := rng.Intn(100); {
+			case x < 8:
+				mode = rng.Intn(4)
+			case pv == 1:
+				mode = []int{0, 0, 0, 0, 1, 1, 1, 2, 2, 3}[x%10]
+			case cq == 1:
+				mode = []int{2, 2, 2, 2, 2, 1, 1, 1, 1, 3}[x%10]
+			default:
+				mode = []int{3, 3, 3, 3, 3, 1, 1, 1, 1, 1}[x%10]
+			}
+			out("mark %d %d", mode, a)
+			second := c2 // the candidate whose MsgVote reaches A second
+			first := c1
+			leaderFirst := func() { // A becomes leader of some term T0 and (maybe) replicates its empty entry
+				out("hup %d", a)
+				if pv == 1 {
+					ask(a, kPreVote, without(a))
+				}
+				ask(a, kVote, without(a))
+				for _, p := range without(a) {
+					if maybe(80) {
+						dp(a, p, kApp, "")
+						if maybe(50) {
+							dp(p, a, kAppResp, "")
+						}
+					}
+				}
+			}
+			twoCandidates := func() { // c1 and c2 campaign for the same term; nobody wins without A
+				out("hup %d", c1)
+				out("hup %d", c2)
+				if pv == 1 { // they (and the others) grant each other's pre-vote
+					ask(c1, kPreVote, without(a, c1))
+					ask(c2, kPreVote, without(a, c2))
+				}
+				for i, o := range others { // the other voters split
+					ask([]int{c1, c2}[i%2], kVote, []int{o})
+				}
+			}
+			switch mode {
+			case 0: // A learns the term from the rejection of its own pre-vote (pre-vote on)
+				twoCandidates()
+				timeout(a)
+				dp(a, c1, kPreVote, "")
+				dp(c1, a, kPreVoteResp, "")
+			case 1: // c1 wins term T with the others' votes, A learns T from c1's append / heartbeat (lead = c1: it refuses
+				// every MsgVote of T), restarts (lead forgotten) and then gets the old MsgVote of c1 and of a competitor
+				out("hup %d", c1)
+				comp := v >= 5 && maybe(60)
+				if comp {
+					out("hup %d", c2)
+				}
+				if pv == 1 {
+					ask(c1, kPreVote, without(a, c1))
+					if comp {
+						ask(c2, kPreVote, without(a, c2))
+					}
+				}
+				if comp {
+					ask(c1, kVote, others)
+				} else {
+					ask(c1, kVote, without(a, c1))
+				}
+				if maybe(25) { // (an append makes A's log longer than what the old requests offer: they are refused for that)
+					dp(c1, a, kApp, "")
+				} else {
+					out("tick %d", c1)
+					dp(c1, a, kHb, "")
+				}
+				if maybe(40) { // refused while A follows c1
+					out("dupp %d %d %d", c1, a, kVote)
+					dp(a, c1, kVoteResp, "")
+				}
+				out("crash %d", a)
+				if maybe(50) {
+					first, second = c2, c1
+				}
+			case 2: // A leads an older term; a heartbeat of A is answered with the higher term of a candidate (checkQuorum / pre-vote on)
+				leaderFirst()
+				twoCandidates()
+				out("tick %d", a)
+				dp(a, c1, kHb, "")
+				dp(c1, a, kAppResp, "")
+			case 3: // A leads an older term; the MsgVote of a candidate with a stale log bumps A's term and is refused, then
+				// the MsgVote of an up-to-date candidate of the same term arrives (pre-vote off, no lease)
+				leaderFirst()
+				for i := 1 + rng.Intn(3); i > 0; i-- {
+					out("prop %d", a)
+					dp(a, c2, kApp, "")
+					dp(c2, a, kAppResp, "")
+				}
+				dp(a, c2, kApp, "")
+				out("hup %d", c1)
+				out("hup %d", c2)
+				if pv == 1 {
+					ask(c1, kPreVote, without(a, c1))
+					ask(c2, kPreVote, without(a, c2))
+				}
+				out("dupp %d %d %d", c1, a, kVote) // refused: stale log; A is in the new term now
+			}
+			// A may be a pre-candidate of its term when the requests arrive (pre-vote on; with pre-vote off it moves on to the next term)
+			if (pv == 1 && maybe(60)) || maybe(10) {
+				timeout(a)
+			}
+			sfx := []string{"", "", "", "", " cr=a", " cr=0"}[rng.Intn(6)] // the voter may crash inside the Ready of its grant
+			dp(first, a, kVote, sfx)
+			early := maybe(50)
+			if early {
+				dp(a, first, kVoteResp, "")
+			}
+			if sfx == "" && maybe(50) {
+				out("crash %d", a) // ... or between the two deliveries
+			}
+			if (pv == 1 && maybe(40)) || maybe(5) {
+				timeout(a)
+			}
+			if maybe(30) {
+				out("dupp %d %d %d", second, a, kVote)
+				dp(a, second, kVoteResp, "")
+				if maybe(50) {
+					out("crash %d", a)
+				}
+			}
+			dp(second, a, kVote, "")
+			dp(a, second, kVoteResp, "")
+			if !early {
+				dp(a, first, kVoteResp, "")
+			}
+			if maybe(30) { // the first request once more (repeat of a vote already cast)
+				dp(first, a, kVote, "")
+				dp(a, first, kVoteResp, "")
+			}
+		}
+		if v >= 3 && rng.Intn(3) == 0 {
+			voteRace() // from the initial state: nobody has voted, all logs equal
+		} else {
+			out("hup %d", rng.Intn(N))
+		}
 		mix(10+rng.Intn(15), 10, 5, 10, 0, 0, 0, 0)
 		for left > 0 {
 			n := 10 + rng.Intn(40)
 			crashy = 0
-			switch rng.Intn(12) {
+			switch rng.Intn(14) {
+			case 12, 13: // one vote per node and term, from whatever state the session is in
+				voteRace()
+				mix(n/2, 10, 10, 10, 0, 0, 0, 0)
 			case 0: // steady replication
 				mix(n, 20, 12, 22, 1, 2, 1, 0)
 			case 1, 2, 8, 9: // election storm, possibly with an isolated node (often the leader: the generator cannot know)
@@ -300,6 +517,18 @@ type rnode struct {
 	iso     bool
 	applied uint64 // oracle: last index handed out (or covered by a handed-out snapshot) since the last (re)start
 	last    string // last reported state (for the id= abbreviation)
+	epoch   int    // number of (re)starts of the Node object
+}
+
+// voteKey / voteRec: oracle bookkeeping of the votes that LEFT a node (granted MsgVoteResp released, or the
+// MsgVote of its own campaign released = the vote for itself), per (node, term), across crashes.
+type voteKey struct {
+	node, term uint64
+}
+
+type voteRec struct {
+	cand  uint64
+	epoch int // restart epoch of the voter when the vote left it
 }
 
 type entKey struct {
@@ -329,6 +558,9 @@ type rsess struct {
 	ackOut        []string // k= field of the next answer: non-reject MsgAppResp (from,term,abstract index) released by this event
 	cs            pb.ConfState
 	leaderOf      map[uint64]uint64
+	votedIn       map[voteKey]voteRec
+	vrMode        int    // kind of the directed vote schedule announced last (`mark`), -1 = none
+	vrNode        uint64 // its voter
 	handed        map[uint64]entKey
 	commits       map[uint64]commitRec
 	maxCommit     uint64
@@ -406,8 +638,8 @@ func newSess(c *Ctx, f []string) (*rsess, error) {
 	}
 	s := &rsess{c: c, v: geti("v", 3), l: geti("l", 0), pv: geti("pv", 0) == 1, cq: geti("cq", 0) == 1,
 		et: geti("et", 6), ht: geti("ht", 1), mi: geti("mi", 8), ms: uint64(geti("ms", 1<<20)), mc: uint64(geti("mc", 0)),
-		sv:       geti("sv", 1),
-		leaderOf: map[uint64]uint64{}, handed: map[uint64]entKey{}, commits: map[uint64]commitRec{}}
+		sv: geti("sv", 1), vrMode: -1,
+		leaderOf: map[uint64]uint64{}, votedIn: map[voteKey]voteRec{}, handed: map[uint64]entKey{}, commits: map[uint64]commitRec{}}
 	if s.v < 1 || s.v > 5 || s.l < 0 || s.v+s.l > 6 || s.ht < 1 || s.et <= s.ht || s.et > 50 || s.mi < 1 {
 		return nil, fmt.Errorf("out of range")
 	}
@@ -449,6 +681,7 @@ func (s *rsess) start(nd *rnode) {
 		nd.n.Stop()
 	}
 	nd.n = raft.RestartNode(s.config(nd))
+	nd.epoch++
 	sn, _ := nd.st.Snapshot()
 	nd.applied = sn.Metadata.Index
 	if rd, ok := nd.n.StepNode(true, false); ok {
@@ -535,7 +768,16 @@ func (s *rsess) stateOf(nd *rnode) string {
 	if v.FirstIndex-1 < s.B {
 		s.c.Violation("harness-assumption", fmt.Sprintf("node %d: first index %d below the bootstrap offset", nd.id, v.FirstIndex))
 	}
-	return fmt.Sprintf("%d:%c:%d:%d:%s", v.Term, roleOf(v.State), s.abs(v.Committed), v.FirstIndex-1-s.B, entsStr(ents, "."))
+	// what REALLY is in the storage object (not what the harness believes it has written)
+	hs, _, err := nd.st.InitialState()
+	if err != nil {
+		s.c.Violation("harness-assumption", fmt.Sprintf("node %d: InitialState: %v", nd.id, err))
+	}
+	if hs.Commit < s.B {
+		s.c.Violation("harness-assumption", fmt.Sprintf("node %d: stored commit %d below the bootstrap offset", nd.id, hs.Commit))
+	}
+	return fmt.Sprintf("%d:%c:%d:%d:%s:v%d:d%d.%d.%d", v.Term, roleOf(v.State), s.abs(v.Committed), v.FirstIndex-1-s.B, entsStr(ents, "."),
+		v.Vote, hs.Term, hs.Vote, s.abs(hs.Commit))
 }
 
 func (s *rsess) answer(acts []string) string {
@@ -677,6 +919,33 @@ func (s *rsess) event(f []string) string {
 		mc := cloneMsg(m)
 		s.c.Note("deliver:" + m.Type.String())
 		return s.cycle(nd, "recv", &mc, func() { nd.n.Step(ctx, mc) }, cr)
+	case "delp", "dupp": // targeted delivery: the newest message from node f to node t of kind y
+		from, to := s.nodes[arg(1)%N].id, s.nodes[arg(2)%N].id
+		kinds := []pb.MessageType{0, pb.MsgVote, pb.MsgVoteResp, pb.MsgPreVote, pb.MsgPreVoteResp, pb.MsgApp, pb.MsgAppResp,
+			pb.MsgHeartbeat, pb.MsgHeartbeatResp}
+		y := arg(3) % len(kinds)
+		k := -1
+		for i := len(s.pool) - 1; i >= 0; i-- {
+			if x := s.pool[i]; x.From == from && x.To == to && (y == 0 || x.Type == kinds[y]) {
+				k = i
+				break
+			}
+		}
+		if k < 0 {
+			s.c.Note("delp-none")
+			return s.answer(nil)
+		}
+		s.c.Note("delp-hit")
+		if f[0] == "delp" {
+			f[0] = "del"
+		} else {
+			f[0] = "dup"
+		}
+		g := []string{f[0], strconv.Itoa(k)}
+		if cr != "" {
+			g = append(g, "cr="+cr)
+		}
+		return s.event(g)
 	case "drop":
 		if len(s.pool) > 0 {
 			k := arg(1) % len(s.pool)
@@ -705,6 +974,10 @@ func (s *rsess) event(f []string) string {
 			acts = append(acts, s.cycleActs(nd, "tick", nil, func() { nd.n.Tick() }, "")...)
 		}
 		return s.answer(acts)
+	case "mark":
+		s.vrMode, s.vrNode = arg(1)%8, s.nodes[arg(2)%N].id
+		s.c.Note(fmt.Sprintf("voterace:kind%d", s.vrMode))
+		return s.answer(nil)
 	case "heal":
 		for _, nd := range s.nodes {
 			nd.iso = false
@@ -970,6 +1243,7 @@ func (s *rsess) release(nd *rnode, rd raft.Ready) {
 		if nd.learner && !x.Reject && (x.Type == pb.MsgVoteResp || x.Type == pb.MsgPreVoteResp) {
 			s.c.Violation("learner-vote", fmt.Sprintf("learner %d grants %s to %d in term %d", nd.id, x.Type, x.To, x.Term))
 		}
+		s.oracleVote(nd, x)
 		if nd.iso || (x.To >= 1 && int(x.To) <= len(s.nodes) && s.nodes[x.To-1].iso) {
 			s.c.Note("lost-by-partition")
 			continue
@@ -1039,9 +1313,38 @@ func (s *rsess) derive(nd *rnode, m *pb.Message, pre, post raft.VerifView, rd ra
 				curT, curR = m.Term, 'F'
 			}
 		case pb.MsgVote:
+			if r := resp(pb.MsgVoteResp, m.From); r != nil && r.Reject && m.Term == pre.Term && pre.Vote != 0 && pre.Vote != m.From {
+				// the guard the property rests on: a second candidate of the term is refused
+				s.c.Note("vote-refused:voted-for-another")
+				if old, ok := s.votedIn[voteKey{j, m.Term}]; ok && old.epoch != nd.epoch {
+					s.c.Note("vote-refused:voted-for-another-before-a-restart")
+				}
+				if pre.State == raft.StatePreCandidate {
+					s.c.Note("vote-refused:voted-for-another,now-pre-candidate")
+				}
+			}
 			if r := resp(pb.MsgVoteResp, m.From); r != nil && !r.Reject {
 				acts = append(acts, fmt.Sprintf("grant,%d,%d,%d", j, m.Term, m.From))
 				s.c.Note("vote-granted")
+				if m.Term == pre.Term { // no term change in this Ready: the HardState differs in the vote only
+					s.c.Note("vote-granted:same-term")
+					if s.vrMode >= 0 && s.vrNode == j && pre.Vote != m.From {
+						s.c.Note(fmt.Sprintf("voterace:kind%d:reached-grant-without-term-change", s.vrMode))
+						if pre.State == raft.StatePreCandidate {
+							s.c.Note(fmt.Sprintf("voterace:kind%d:reached-grant-by-pre-candidate", s.vrMode))
+						}
+						s.vrMode = -1 // counted once per announced schedule
+					}
+					if pre.Vote == m.From {
+						s.c.Note("vote-granted:same-term,repeat")
+					}
+					if pre.State == raft.StatePreCandidate {
+						s.c.Note("vote-granted:same-term,by-pre-candidate")
+					}
+					if nd.epoch > 1 {
+						s.c.Note("vote-granted:same-term,after-a-restart")
+					}
+				}
 				if curT < m.Term {
 					curR = 'F'
 				}
@@ -1159,6 +1462,41 @@ func (s *rsess) derive(nd *rnode, m *pb.Message, pre, post raft.VerifView, rd ra
 
 // ---------------------------------------------------------------------------------------------
 // implementation-level oracle (independent of the Lean side)
+
+// oracleVote looks at every message that LEAVES a node (release runs after the harness has persisted the Ready,
+// whether or not the message then is lost by a partition):
+//   - vote-not-durable: a granted MsgVoteResp leaves while the HardState in the storage object does not hold that
+//     vote for that term (Raft: votedFor is on stable storage before the RPC is answered) - after a crash the node
+//     would be free to vote again in the same term;
+//   - two-votes-one-term: the same node lets votes for two different candidates of one term leave (a granted
+//     MsgVoteResp to each, or the MsgVote of its own campaign = its vote for itself and a grant to somebody else),
+//     remembered across crashes.
+func (s *rsess) oracleVote(nd *rnode, x pb.Message) {
+	var cand uint64
+	switch {
+	case x.Type == pb.MsgVoteResp && !x.Reject:
+		cand = x.To
+		hs, _, _ := nd.st.InitialState()
+		if hs.Term != x.Term || hs.Vote != x.To {
+			s.c.Violation("vote-not-durable", fmt.Sprintf("node %d releases its vote for %d in term %d, but its storage holds {term %d, vote %d}",
+				nd.id, x.To, x.Term, hs.Term, hs.Vote))
+		}
+	case x.Type == pb.MsgVote:
+		cand = nd.id
+	default:
+		return
+	}
+	k := voteKey{nd.id, x.Term}
+	if old, ok := s.votedIn[k]; ok && old.cand != cand {
+		across := ""
+		if old.epoch != nd.epoch {
+			across = fmt.Sprintf(" (restarted %d time(s) in between)", nd.epoch-old.epoch)
+		}
+		s.c.Violation("two-votes-one-term", fmt.Sprintf("node %d voted for %d and for %d in term %d%s", nd.id, old.cand, cand, x.Term, across))
+		return
+	}
+	s.votedIn[k] = voteRec{cand, nd.epoch}
+}
 
 func (s *rsess) oracleState(nd *rnode, pre, post raft.VerifView) {
 	c := s.c
